@@ -334,6 +334,33 @@ def misc_check():
         n += 1
         if comp.state != dict(x=0, y=1):
             fails.append(dict(name='Component.update joins inputs with the machine\'s outputs', state=str(comp.state)))
+        # a component that owns no variable (a monitor): wherever its action holds for the given
+        # current and next values the step is taken (nothing to assign), elsewhere it is refused
+        import itertools as _it
+        import omega.symbolic.temporal as _trl
+        for act, pred in ((r"(y < 3) \/ x", lambda x, y, xn, yn: y < 3 or x),
+                          (r"(y' >= y) /\ (x => x')", lambda x, y, xn, yn: yn >= y and ((not x) or xn)),
+                          ('TRUE', lambda *a: True)):
+            mon = _trl.Automaton()
+            mon.declare_variables(x='bool', y=(0, 3))
+            mon.varlist = dict(env=['x', 'y'], sys=[], impl=[])
+            mon.prime_varlists()
+            mon.init['impl'] = 'TRUE'
+            mon.action['impl'] = act
+            ms = steps.AutomatonStepper(mon)
+            for x, y, xn, yn in _it.product([False, True], [0, 1, 3], [False, True], [0, 2, 3]):
+                n += 1
+                try:
+                    out = ms.step({'x': x, 'y': y, "x'": xn, "y'": yn})
+                    got = 'step' if out == dict() else f'returned {out}'
+                except ValueError:
+                    got = 'refused'
+                except Exception as e:
+                    got = repr(e)[:80]
+                want = 'step' if pred(x, y, xn, yn) else 'refused'
+                if got != want and len(fails) < 8:
+                    fails.append(dict(name='AutomatonStepper of a component without variables of its own: the step is taken exactly where the action holds',
+                                      action=act, state=str(dict(x=x, y=y)), next=str({"x'": xn, "y'": yn}), got=got, expected=want))
         return dict(records=[], stats=dict(), functions={}, bounded=dict(evaluations=n, failures=fails))
     return run
 
@@ -364,6 +391,21 @@ def stepper_on_implementations(seed, n_games):
                     gr1.make_streett_transducer(z, yij, xijk, aut)
             except AssertionError:
                 continue
+            if g % 3 == 2:
+                # the specification grows by one output after a first synthesis, and the SAME
+                # automaton is synthesized again: the stepper built afterwards assigns all the
+                # implementation's variables, the added one included
+                try:
+                    with contextlib.redirect_stdout(io.StringIO()):
+                        aut.declare_variables(zz='bool')
+                        aut.varlist['sys'].append('zz')
+                        ds = dict(ds, zz='bool')
+                        z, yij, xijk = gr1.solve_streett_game(aut)
+                        if not gr1.is_realizable(z, aut) or z == aut.false:
+                            continue
+                        gr1.make_streett_transducer(z, yij, xijk, aut)
+                except (AssertionError, ValueError):
+                    continue
             built += 1
             stp = steps.AutomatonStepper(aut)
             impl = aut.action['impl']
